@@ -45,6 +45,7 @@ def plan(tier):
 def required(tier):
     return {
         "trees.glr_prefix_mode": 1000,
+        "parsers.debug_mode": 10,
         "nontrivial": 3000 if tier == "quick" else 30000,
         "trees.lr": 3000,
         "trees.glr": 10000,
@@ -210,10 +211,14 @@ def one_grammar(ctx, g, alphabet, maxlen):
     skip = cfg.skip_comments if layout_kind == "comments" else cfg.skip_ws
     if len(alphabet) >= 3 and maxlen > 3:
         maxlen = 3
+    # debug=True only prints (into the void here): what the trees say must not depend on it
+    dbg = {"debug": True} if rng.random() < 0.08 else {}
+    if dbg:
+        ctx.count("parsers.debug_mode")
     try:
         with pgx.watchdog(20):
             pg = pgx.grammar(text, ignore_case=ignore_case)
-            glr = pgx.glr(pg)
+            glr = pgx.glr(pg, **dbg)
     except Exception as e:  # noqa: BLE001
         ctx.count("construction_failed:" + type(e).__name__)
         return
@@ -225,7 +230,7 @@ def one_grammar(ctx, g, alphabet, maxlen):
     lr = None
     try:
         with pgx.watchdog(20):
-            lr = pgx.lr(pgx.grammar(text, ignore_case=ignore_case), build_tree=True)
+            lr = pgx.lr(pgx.grammar(text, ignore_case=ignore_case), build_tree=True, **dbg)
     except Exception:  # noqa: BLE001
         pass
     # on-the-fly actions and obj results (named matches) for the same grammar
@@ -240,7 +245,7 @@ def one_grammar(ctx, g, alphabet, maxlen):
                 lr_obj = pgx.lr(pgx.grammar(named_text, ignore_case=ignore_case))
         except Exception as e:  # noqa: BLE001
             ctx.count("action_parsers_failed:" + type(e).__name__)
-    case0 = {"grammar": text, "g": g.to_json(), "layout": layout_kind, "ignore_case": ignore_case, "named": named_text}
+    case0 = {"grammar": text, "g": g.to_json(), "layout": layout_kind, "ignore_case": ignore_case, "named": named_text, "debug": bool(dbg)}
     extra = (lr_act, lr_obj)
     for w in cfg.all_strings(alphabet, maxlen):
         if not cfg.Chart(g, w, skip=cfg.skip_none).is_sentence():
@@ -450,11 +455,12 @@ def action_positions(ctx, case, lr, tree, inp):
 def replay(case, ctx):
     g = cfg.G.from_json(case["g"])
     pg = pgx.grammar(case["grammar"], ignore_case=case["ignore_case"])
-    glr = pgx.glr(pg)
+    dbg = {"debug": True} if case.get("debug") else {}
+    glr = pgx.glr(pg, **dbg)
     glr.prefix_parser = pgx.glr(pg, consume_input=False) if case.get("parser") == "GLR-prefix" else None
     lr = None
     try:
-        lr = pgx.lr(pgx.grammar(case["grammar"], ignore_case=case["ignore_case"]), build_tree=True)
+        lr = pgx.lr(pgx.grammar(case["grammar"], ignore_case=case["ignore_case"]), build_tree=True, **dbg)
     except Exception:  # noqa: BLE001
         pass
     skip = cfg.skip_comments if case["layout"] == "comments" else cfg.skip_ws
